@@ -890,7 +890,8 @@ class EventBus:
             await asyncio.sleep(0)  # Yield to event loop
 
             # Double-check we're truly idle - if new events came in, wait again
-            while not self._on_idle.is_set() or self.events_started or self.events_pending:
+            # (the queue is checked too: an event that is already complete, e.g. dispatched to this bus again, is neither pending nor started)
+            while not self._on_idle.is_set() or self.events_started or self.events_pending or self.event_queue.qsize():
                 if timeout is not None:
                     elapsed = asyncio.get_event_loop().time() - start_time
                     remaining_timeout = max(0, timeout - elapsed)
